@@ -22,13 +22,30 @@ Oracles (implementation alone, written from the property statement and the DBus 
     variants (ruling on review item 2, fixes/C19-02).
   * exceptions on malformed signatures and on values without a DBus type are compared only as "raises":
     which exception class (and how many pieces a lazy consumer saw first) is not part of the property.
+
+Histories (streams split-history, infer-history; they run FIRST): the same oracles applied to LATER uses inside one
+process.  split-history: a signature `X a S` is split before its suffix S was ever split on its own, then S, (S),
+a(S) and `X a S` again; one `next()` (or k pieces) taken and the generator abandoned, then the full split;
+argument counting over the same signatures.  infer-history: values that are == and hash alike but differ in class
+(1 / True / 1.0 / Byte(1) / UInt32(1), '/a' / ObjectPath('/a'), ...) inferred and sent one after the other in every
+rotation, each rotation inside fresh containers; live lists / dicts that are mutated in place between two uses; a
+value that fails (no DBus type, scalar out of range) followed by a repaired one.  The wrapper clause is judged class-
+exactly on the WIRE: the marshalled variant is decoded by the independent reference decoder (harness/c02_ref.py),
+which exposes the type every value travelled under, and every wrapper instance inside the value must have travelled
+under exactly its own type code (Python == cannot tell Byte(1) sent as 'i').  The models are pure functions, so
+each step is compared with the driver's answer for that step alone.  A violation at step k is stored with steps 0..k.
 """
+import itertools
 import json
+import os
 import re
+import subprocess
+import sys
 
 from harness import valcodec as vc
 
-STREAMS = ['split-enumerated', 'split-random', 'split-malformed', 'argcount', 'infer', 'variant-wire']
+STREAMS = ['split-enumerated', 'split-random', 'split-malformed', 'argcount', 'infer', 'variant-wire',
+           'split-history', 'infer-history']
 THEOREMS = ['split_render', 'split_render_lazy', 'split_first', 'split_concat', 'split_each_complete',
             'split_count', 'render_injective', 'decomposition_unique', 'split_agrees_with_grammar',
             'argcount_eq_types', 'infer_single_complete_type', 'infer_splits_into_one', 'infer_fails_iff',
@@ -44,6 +61,8 @@ TRUSTED_BASE = [
     'the correspondence streams',
     'harness/valcodec.py <-> lean/Driver/Val.lean (mapping between Python values and PyVal)',
     'harness oracle: parse_one (DBus grammar), natural_sig / expect (domain of the round-trip claim)',
+    'harness/c02_ref.py decode (independent reference decoder, owned by C02): which type each value of a marshalled '
+    'variant travelled under (wrapper clause judged on the wire)',
 ]
 ASSUMPTIONS = [
     'enumerated signatures use the leaf alphabet {i, s, v} (all 14 leaf codes up to length 3 quick / 5 thorough): '
@@ -55,10 +74,27 @@ RULE = ('split-enumerated: every signature of the DBus grammar up to the stated 
         'split-random: grammar-generated signatures up to 255 bytes, nesting <= 32; split-malformed: edits of valid '
         'signatures and random bracket strings; infer / variant-roundtrip: values generated type-first (a random DBus '
         'type, then a value of it, mixing subclasses) plus unconstrained heterogeneous values; distinct = distinct '
-        'canonical case text per stream; a case is non-trivial unless it is a single leaf')
+        'canonical case text per stream; a case is non-trivial unless it is a single leaf.  split-enumerated has a '
+        'second, LONGEST-FIRST pass over the leaf alphabet {u,b,d} (so that no signature of it was split before), and '
+        'every signature is asked for its first type before and after the full split.  split-history / infer-history: '
+        'sequences of operations over related signatures / equal-but-differently-typed or mutated values, one case = one step')
 
 BASIC = 'ybnqiuxtdsogh'
 LEAVES = BASIC + 'v'
+
+
+def _is_history(inp):
+    return isinstance(inp, dict) and inp.get('op') == 'history'
+
+
+def _viol(ctx, key, what, inp=None, observed=None, expected=None):
+    """ctx.violation + remember, per key, the smallest HISTORY that showed it (see settle)"""
+    ctx.violation(key, what, inp=inp, observed=observed, expected=expected)
+    if _is_history(inp):
+        hist = ctx.__dict__.setdefault('_c19_hist', {})
+        old = hist.get(key)
+        if old is None or len(inp['steps']) < len(old['input']['steps']):
+            hist[key] = {'input': inp, 'what': what, 'observed': observed, 'expected': expected}
 
 
 # =====================================================================================================
@@ -446,8 +482,9 @@ def plain_eq(a, b):
 
 
 
-def roundtrip(marshal, v, le=True, off=0):
-    """(ok, observed, expected) for a value inside the claim; (None, why, None) when outside."""
+def roundtrip(marshal, v, le=True, off=0, keep=None):
+    """(ok, observed, expected) for a value inside the claim; (None, why, None) when outside.
+    `keep`: a list that receives the marshalled bytes."""
     try:
         exp = expect(v, 'v')
     except Outside as o:
@@ -456,6 +493,8 @@ def roundtrip(marshal, v, le=True, off=0):
         sig = marshal.sigFromPy(v)
         n, chunks = marshal.marshal('v', [v], off, le)
         data = b''.join(chunks)
+        if keep is not None:
+            keep.append(data)
         n2, out = marshal.unmarshal('v', b'\xaa' * off + data, off, le)
     except Exception as e:
         return False, 'raises %s: %s' % (type(e).__name__, str(e)[:100]), repr(exp)[:200]
@@ -463,6 +502,74 @@ def roundtrip(marshal, v, le=True, off=0):
     if not plain_eq(got, exp) or not plain_eq(got, normalise(v)):
         return False, 'sig %s decodes to %s' % (sig, repr(got)[:200]), repr(exp)[:200]
     return True, sig, None
+
+
+# ---- the wrapper clause, judged on the wire ("the explicit wrapper types select exactly their DBus type")
+def _render_ty(ty):
+    if isinstance(ty, str):
+        return ty
+    if ty[0] == 'a':
+        return 'a' + _render_ty(ty[1])
+    if ty[0] == '(':
+        return '(' + ''.join(_render_ty(f) for f in ty[1]) + ')'
+    return '{' + _render_ty(ty[1]) + _render_ty(ty[2]) + '}'
+
+
+def wire_types(data, le, off):
+    """('V', type, value) tree of a marshalled variant according to the reference decoder (None: it refuses the
+    bytes - that is C02's matter, not judged here)."""
+    from harness import c02_ref
+    try:
+        out, used = c02_ref.decode(['v'], b'\xaa' * off + data, off, le)
+        return out[0]
+    except Exception:
+        return None
+
+
+def misplaced_wrappers(v, ty, sv, path='v'):
+    """Wrapper instances inside `v` that travelled under another type code than their own.  Walks the value and
+    the decoded wire tree together; stops wherever the shapes do not correspond (the == oracle judges that)."""
+    if ty == 'v' and isinstance(sv, tuple) and len(sv) == 3 and sv[0] == 'V':
+        return misplaced_wrappers(v, sv[1], sv[2], path)
+    w = wrapper_name(v)
+    if w:
+        got = _render_ty(ty)
+        return [(path, w, got)] if got != WRAPPER_SIG[w] else []
+    c = py_class(v)
+    code = ty if isinstance(ty, str) else ty[0]
+    out = []
+    if c == 'tuple' and code == '(' and isinstance(sv, list) and len(ty[1]) == len(v) == len(sv):
+        for i, (e, f, x) in enumerate(zip(v, ty[1], sv)):
+            out += misplaced_wrappers(e, f, x, '%s[%d]' % (path, i))
+    elif c == 'list' and code == 'a' and isinstance(sv, list) and len(sv) == len(v) \
+            and (isinstance(ty[1], str) or ty[1][0] != '{'):
+        for i, (e, x) in enumerate(zip(v, sv)):
+            out += misplaced_wrappers(e, ty[1], x, '%s[%d]' % (path, i))
+    elif c == 'dict' and code == 'a' and not isinstance(ty[1], str) and ty[1][0] == '{' and isinstance(sv, list) \
+            and len(sv) == len(v):
+        items = list(v.items())
+        samekeys = all(type(k) is type(items[0][0]) for k, _ in items)      # keys of several classes: outside
+        for (k, e), pair in zip(items, sv):
+            if samekeys:
+                out += misplaced_wrappers(k, ty[1][1], pair[0], '%s.key(%r)' % (path, k))
+            out += misplaced_wrappers(e, ty[1][2], pair[1], '%s[%r]' % (path, k))
+    return out
+
+
+def wrapper_oracle(ctx, v, data, le, off, inp):
+    """S4, wrapper clause, for a value inside the claim that marshalled to `data`."""
+    tree = wire_types(data, le, off)
+    if tree is None:
+        ctx.stat('wire-types:reference-decoder-refuses')
+        return
+    bad = misplaced_wrappers(v, 'v', tree)
+    ctx.stat('wire-types:judged')
+    if bad:
+        pth, w, got = bad[0]
+        _viol(ctx, 'wrapper-selects-wrong-type',
+              '%s instance at %s of %s travels as %r (%s endian, offset %d)' % (w, pth, repr(v)[:120], got,
+                                                                             'little' if le else 'big', off),
+              inp=inp, observed={'wire': vc.bytes_hex(data), 'travels_as': got}, expected=WRAPPER_SIG[w])
 
 
 def children(v):
@@ -896,52 +1003,73 @@ def canon_err(x):
     return 'err' if isinstance(x, str) and x.startswith('err') else x
 
 
-def check_split_oracle(ctx, sig, pieces, observed):
+def check_split_oracle(ctx, sig, pieces, observed, inp=None):
     """S4 on a valid signature: concatenation and one complete type per piece."""
     want = parse_all(sig)
     ok = pieces is not None and ''.join(pieces) == sig and all(is_single(p) for p in pieces)
     if not ok or pieces != want:
-        ctx.violation('split-wrong-decomposition',
-                      'list(genCompleteTypes(%r)) is not the decomposition into complete types' % (sig,),
-                      inp={'op': 'split', 'sig': sig}, observed=observed, expected=want)
+        _viol(ctx, 'split-wrong-decomposition',
+              'list(genCompleteTypes(%r)) is not the decomposition into complete types' % (sig,),
+              inp=inp or {'op': 'split', 'sig': sig}, observed=observed, expected=want)
 
 
-def run_split(ctx, marshal, stream, sigs, valid):
+def check_first_oracle(ctx, sig, of, inp=None):
+    """S4 on a valid, non-empty signature: one next() gives the first complete type."""
+    want = parse_all(sig)
+    if want:
+        exp_first = 'ok %s %s' % (vc.str_hex(want[0]), vc.str_hex(sig[len(want[0]):]))
+        if of != exp_first:
+            _viol(ctx, 'split-wrong-decomposition',
+                  'next(genCompleteTypes(%r)) is not the first complete type' % (sig,),
+                  inp=inp or {'op': 'split', 'sig': sig}, observed=of, expected=exp_first)
+
+
+PATTERNS = {'fsf': ('first', 'split', 'first'), 'sfs': ('split', 'first', 'split')}
+
+
+def run_split(ctx, marshal, stream, sigs, valid, pattern=None):
+    """Every signature: next() on a fresh generator (abandoned after one piece) and the full split, in the order
+    `pattern` ('fsf' | 'sfs'; default: alternating) - a generator left half consumed must not change what the
+    next one yields."""
     lines = []
     for s in sigs:
         lines.append('split ' + vc.str_hex(s))
         lines.append('first ' + vc.str_hex(s))
     out = ctx.model(lines)
     for i, s in enumerate(sigs):
-        ob, pieces = obs_split(marshal, s)
-        of = obs_first(marshal, s)
-        ctx.impl_trace(2)
-        ctx.case(stream, sample=s, nontrivial=len(s) > 1)
-        ctx.stat('%s:len=%s' % (stream, len(s) if len(s) < 10 else '%d+' % (len(s) // 10 * 10)))
-        if not valid:
-            ctx.stat('%s:%s' % (stream, 'ok' if ob.startswith('ok') else 'raises'))
-        if out is not None and valid:
-            if out[2 * i] != ob:
-                ctx.disagree(stream, {'op': 'split', 'sig': s}, out[2 * i], ob)
-            if s and out[2 * i + 1] != of:
-                ctx.disagree(stream, {'op': 'first', 'sig': s}, out[2 * i + 1], of)
-        elif out is not None:
-            # malformed input: the property says nothing.  Whatever the implementation ACCEPTS must be what the
-            # model yields; an implementation that refuses more (validation up front, another exception class)
-            # is not a disagreement.
-            if ob.startswith('ok') and out[2 * i] != ob:
-                ctx.disagree(stream, {'op': 'split', 'sig': s}, out[2 * i], ob)
-            if s and of.startswith('ok') and out[2 * i + 1] != of:
-                ctx.disagree(stream, {'op': 'first', 'sig': s}, out[2 * i + 1], of)
-        if valid:
-            check_split_oracle(ctx, s, pieces, ob)
-            want = parse_all(s)
-            if want:
-                exp_first = 'ok %s %s' % (vc.str_hex(want[0]), vc.str_hex(s[len(want[0]):]))
-                if of != exp_first:
-                    ctx.violation('split-wrong-decomposition',
-                                  'next(genCompleteTypes(%r)) is not the first complete type' % (s,),
-                                  inp={'op': 'split', 'sig': s}, observed=of, expected=exp_first)
+        pat = pattern or ('fsf', 'sfs')[i % 2]
+        inp = {'op': 'split', 'sig': s, 'pattern': pat}
+        for k, what in enumerate(PATTERNS[pat]):
+            if what == 'split':
+                ob, pieces = obs_split(marshal, s)
+                of = None
+            else:
+                of = obs_first(marshal, s)
+                ob = None
+            ctx.impl_trace()
+            if k == 0:
+                ctx.case(stream, sample=s, nontrivial=len(s) > 1)
+                ctx.stat('%s:len=%s' % (stream, len(s) if len(s) < 10 else '%d+' % (len(s) // 10 * 10)))
+            if not valid and ob is not None and k < 2:
+                ctx.stat('%s:%s' % (stream, 'ok' if ob.startswith('ok') else 'raises'))
+            if out is not None and valid:
+                if ob is not None and out[2 * i] != ob:
+                    ctx.disagree(stream, dict(inp, op='split', step=k), out[2 * i], ob)
+                if of is not None and s and out[2 * i + 1] != of:
+                    ctx.disagree(stream, dict(inp, op='first', step=k), out[2 * i + 1], of)
+            elif out is not None:
+                # malformed input: the property says nothing.  Whatever the implementation ACCEPTS must be what the
+                # model yields; an implementation that refuses more (validation up front, another exception class)
+                # is not a disagreement.
+                if ob is not None and ob.startswith('ok') and out[2 * i] != ob:
+                    ctx.disagree(stream, dict(inp, op='split', step=k), out[2 * i], ob)
+                if of is not None and s and of.startswith('ok') and out[2 * i + 1] != of:
+                    ctx.disagree(stream, dict(inp, op='first', step=k), out[2 * i + 1], of)
+            if valid:
+                if ob is not None:
+                    check_split_oracle(ctx, s, pieces, ob, inp)
+                else:
+                    check_first_oracle(ctx, s, of, inp)
 
 
 def obs_nargs_reuse(sig_in, sig_out, sig_sig):
@@ -982,7 +1110,7 @@ def run_argcount(ctx, marshal, triples):
             want = [len(parse_all(x)) for x in t]
             again = obs_nargs_reuse(*t)
             if ob != want or again != (want, want, want[:2]):
-                ctx.violation('argcount-wrong', 'interface.py counts %r (re-added / shared / swapped: %r) arguments '
+                _viol(ctx, 'argcount-wrong', 'interface.py counts %r (re-added / shared / swapped: %r) arguments '
                               'for signatures %r' % (ob, again, list(t)),
                               inp={'op': 'nargs', 'sigs': list(t)}, observed=[ob, again], expected=want)
 
@@ -1016,66 +1144,87 @@ def infer_oracle(ctx, marshal, v, ob, inp):
         sig = vc.hex_str(ob[3:])
         # depth > 32 / length > 255 are limits the statement does not mention: not judged here
         if len(sig) <= 255 and max_depth(sig) <= 32 and not is_single(sig):
-            ctx.violation('inferred-signature-not-single-complete-type',
+            _viol(ctx, 'inferred-signature-not-single-complete-type',
                           'sigFromPy gives %r, which is not one complete type' % (sig,),
                           inp=inp, observed=sig, expected='one complete type, or an exception')
         w = wrapper_name(v)
         if w and sig != WRAPPER_SIG[w]:
-            ctx.violation('wrapper-selects-wrong-type', '%s instance infers %r' % (w, sig),
+            _viol(ctx, 'wrapper-selects-wrong-type', '%s instance infers %r' % (w, sig),
                           inp=inp, observed=sig, expected=WRAPPER_SIG[w])
     elif nat is not None and len(nat) <= 255 and max_depth(nat) <= 32 and not typeless_somewhere(v):
         # only values that HAVE a DBus type, throughout, must get a signature (a typeless value may raise)
-        ctx.violation('inference-fails-on-supported-value', 'sigFromPy raises %s on a value built from the '
+        _viol(ctx, 'inference-fails-on-supported-value', 'sigFromPy raises %s on a value built from the '
                       'supported classes that has the DBus type %s' % (ob[4:], nat), inp=inp,
                       observed=ob, expected=nat)
+
+
+def judge_infer(ctx, marshal, stream, v, line, mline, inp):
+    """One sigFromPy call: S3 against the driver's answer, S4 by infer_oracle."""
+    ob = obs_infer(marshal, v)
+    ctx.impl_trace()
+    ctx.stat('%s:%s' % (stream, 'raises' if ob.startswith('err') else 'ok'))
+    typeless = typeless_somewhere(v) or (builtin_only(v) and natural_sig(v) is None)
+    if mline is not None and not typeless and canon_err(mline) != canon_err(ob):
+        # (what happens to a value WITHOUT a DBus type - 2**64, a container holding one - is not compared)
+        ctx.disagree(stream, inp, mline, ob)
+    infer_oracle(ctx, marshal, v, ob, inp)
+    return ob
 
 
 def run_infer(ctx, marshal, values):
     lines = ['infer ' + vc.to_line(v) for v in values]
     out = ctx.model(lines)
     for i, v in enumerate(values):
-        ob = obs_infer(marshal, v)
-        ctx.impl_trace()
         ctx.case('infer', sample=lines[i][6:], nontrivial=isinstance(v, (list, tuple, dict)))
         ctx.stat('infer:top=' + type(v).__name__)
-        ctx.stat('infer:' + ('raises' if ob.startswith('err') else 'ok'))
-        inp = {'op': 'infer', 'value': lines[i][6:]}
-        typeless = typeless_somewhere(v) or (builtin_only(v) and natural_sig(v) is None)
-        if out is not None and not typeless and canon_err(out[i]) != canon_err(ob):
-            # (what happens to a value WITHOUT a DBus type - 2**64, a container holding one - is not compared)
-            ctx.disagree('infer', inp, out[i], ob)
-        infer_oracle(ctx, marshal, v, ob, inp)
+        judge_infer(ctx, marshal, 'infer', v, lines[i][6:], out[i] if out is not None else None,
+                    {'op': 'infer', 'value': lines[i][6:]})
 
 
-def run_roundtrip(ctx, marshal, cases):
-    """cases: (value, replayable input, little endian?, start offset)"""
-    for v, inp, le, off in cases:
-        ok, info, exp = roundtrip(marshal, v, le, off)
-        ctx.case('variant-roundtrip', sample=inp if ok is not None else None,
-                 nontrivial=ok is not None and isinstance(v, (list, tuple, dict)))
-        if ok is None:
-            ctx.stat('roundtrip:outside:' + info)
-            continue
-        ctx.impl_trace()
-        ctx.stat('roundtrip:inside')
-        ctx.stat('roundtrip:%s,off=%d' % ('le' if le else 'be', off))
-        ctx.stat('roundtrip:inside:top=' + (py_class(v) or '?'))
-        if isinstance(v, (list, dict, tuple)):
-            ctx.stat('roundtrip:inside:len=%s' % (len(v) if len(v) < 5 else '5..40' if len(v) <= 40 else '40+'))
-        if ok is False:
+def judge_roundtrip(ctx, marshal, v, inp, le, off, shrink=True):
+    """One variant round trip, implementation alone: the == oracle and, on the marshalled bytes, the wrapper
+    clause.  Returns ok (None: outside the claim)."""
+    keep = []
+    ok, info, exp = roundtrip(marshal, v, le, off, keep)
+    if ok is None:
+        ctx.stat('roundtrip:outside:' + info)
+        return None
+    ctx.impl_trace()
+    ctx.stat('roundtrip:inside')
+    ctx.stat('roundtrip:%s,off=%d' % ('le' if le else 'be', off))
+    ctx.stat('roundtrip:inside:top=' + (py_class(v) or '?'))
+    if isinstance(v, (list, dict, tuple)):
+        ctx.stat('roundtrip:inside:len=%s' % (len(v) if len(v) < 5 else '5..40' if len(v) <= 40 else '40+'))
+    if keep:
+        wrapper_oracle(ctx, v, keep[0], le, off, dict(inp, le=le, off=off) if not _is_history(inp) else inp)
+    if ok is False:
+        small, info2, exp2 = v, info, exp
+        if shrink:
             small = shrink_roundtrip(marshal, v, le, off)
             ok2, info2, exp2 = roundtrip(marshal, small, le, off)
             if ok2 is not False:
                 small, info2, exp2 = v, info, exp
-            key = classify_roundtrip_failure(marshal, small, le, off)
+        key = classify_roundtrip_failure(marshal, small, le, off)
+        if _is_history(inp):
+            sinp = inp
+        else:
             try:
                 sinp = {'op': 'roundtrip', 'value': vc.to_line(small), 'le': le, 'off': off}
             except ValueError:
                 sinp = dict(inp, le=le, off=off)
                 small = v
-            ctx.violation(key, 'variant round trip (%s endian, offset %d) of %s: %s'
-                          % ('little' if le else 'big', off, repr(small)[:120], info2),
-                          inp=sinp, observed=info2, expected=exp2)
+        _viol(ctx, key, 'variant round trip (%s endian, offset %d) of %s: %s'
+              % ('little' if le else 'big', off, repr(small)[:120], info2),
+              inp=sinp, observed=info2, expected=exp2)
+    return ok
+
+
+def run_roundtrip(ctx, marshal, cases):
+    """cases: (value, replayable input, little endian?, start offset)"""
+    for v, inp, le, off in cases:
+        ok = judge_roundtrip(ctx, marshal, v, inp, le, off)
+        ctx.case('variant-roundtrip', sample=inp if ok is not None else None,
+                 nontrivial=ok is not None and isinstance(v, (list, tuple, dict)))
         if ok is not None and 'spec' in inp:
             # subclass values have no model side: judge their inference here
             infer_oracle(ctx, marshal, v, obs_infer(marshal, v), inp)
@@ -1111,11 +1260,548 @@ def run_wire(ctx, marshal, cases):
             ctx.disagree('variant-wire', {'op': 'wire', 'value': lines[i][4:]}, out[i][:300], ob[:300])
 
 
+# =====================================================================================================
+# histories: LATER uses inside one process
+# =====================================================================================================
+# steps (JSON-able; a history is {'shape': ..., 'steps': [...]}):
+#   {'do': 'split' | 'first', 'sig': s}          list(genCompleteTypes(s)) | one next() on a fresh generator, abandoned
+#   {'do': 'take', 'sig': s, 'k': k}             k pieces taken from a fresh generator, which is then abandoned
+#   {'do': 'nargs', 'sigs': [in, out, signal]}   Method / Signal declared on a fresh interface
+#   {'do': 'new', 'slot': a, 'value': line}      the slot is emptied, then bound to a freshly built value
+#   {'do': 'mut', 'slot': a, 'at': [key lines], 'op': 'append'|'setitem'|'delitem'|'pop'|'clear', 'key': line, 'arg': line}
+#   {'do': 'infer' | 'rt', 'slot': a | 'value': line, 'le': bool, 'off': n, 'line': snapshot of the value at this step}
+_TOKENS = itertools.count()
+
+
+def fresh_tok():
+    return 't%d' % next(_TOKENS)
+
+
+def apply_mut(root, st):
+    c = root
+    for k in st.get('at', []):
+        c = c[vc.from_line(k)]
+    op = st['op']
+    if op == 'append':
+        c.append(vc.from_line(st['arg']))
+    elif op == 'setitem':
+        c[vc.from_line(st['key'])] = vc.from_line(st['arg'])
+    elif op == 'delitem':
+        del c[vc.from_line(st['key'])]
+    elif op == 'pop':
+        c.pop()
+    elif op == 'clear':
+        c.clear()
+    else:
+        raise ValueError(op)
+
+
+class HB:
+    """History builder: performs the mutations on real Python values while the history is written down, so that
+    every check step carries the line of the value as it is at that step (the model's input)."""
+
+    def __init__(self, shape):
+        self.shape = shape
+        self.steps = []
+        self.slots = {}
+        self.n = 0
+
+    def combo(self):
+        self.n += 1
+        return [(True, 0), (False, 0), (True, 3), (False, 5), (True, 7), (False, 2)][self.n % 6]
+
+    def new(self, slot, v):
+        line = vc.to_line(v)
+        self.slots[slot] = vc.from_line(line)
+        self.steps.append({'do': 'new', 'slot': slot, 'value': line})
+
+    def mut(self, slot, op, at=(), key=None, arg=None):
+        st = {'do': 'mut', 'slot': slot, 'op': op}
+        if at:
+            st['at'] = [vc.to_line(k) for k in at]
+        if op in ('setitem', 'delitem'):
+            st['key'] = vc.to_line(key)
+        if op in ('append', 'setitem'):
+            st['arg'] = vc.to_line(arg)
+        apply_mut(self.slots[slot], st)
+        self.steps.append(st)
+
+    def check(self, slot, kinds=('infer', 'rt')):
+        line = vc.to_line(self.slots[slot])
+        for do in kinds:
+            le, off = self.combo()
+            self.steps.append({'do': do, 'slot': slot, 'le': le, 'off': off, 'line': line})
+
+    def temp(self, v, kinds=('rt',)):
+        line = vc.to_line(v)
+        for do in kinds:
+            le, off = self.combo()
+            self.steps.append({'do': do, 'value': line, 'le': le, 'off': off})
+
+    def done(self):
+        return {'shape': self.shape, 'steps': self.steps}
+
+
+# ---- split histories
+def fresh_types(rng, taken, n=None):
+    """>= 2 complete types whose concatenation (and every proper suffix of >= 2 characters) was not used before"""
+    while True:
+        k = n or rng.choice([2, 2, 3, 3, 4, 6])
+        ts = [rand_type(rng, rng.choice([1, 1, 2, 4, 9])) for _ in range(k)]
+        if len(''.join(ts)) < 5:
+            ts.append(''.join(rng.choice(BASIC) for _ in range(5)))        # a run of leaves makes it unique
+        S = ''.join(ts)
+        if len(S) <= 200 and _valid(S) and not any(S[i:] in taken for i in range(len(S) - 1)):
+            for i in range(len(S) - 1):
+                taken.add(S[i:])
+            return parse_all(S)
+
+
+def split_histories(rng, n):
+    taken = set()
+    out = []
+    shapes = ['long-first', 'first-before-split', 'partial-then-full', 'short-first', 'dict-and-struct',
+              'argcount', 'long-first-lazy']
+    for i in range(n):
+        shape = shapes[i % len(shapes)]
+        ts = fresh_types(rng, taken)
+        S = ''.join(ts)
+        X = ''.join(rng.choice(LEAVES) for _ in range(rng.choice([0, 0, 1, 2])))
+        A = 'a' * rng.choice([1, 1, 1, 2])
+        long_ = X + A + S
+        sp = lambda x: {'do': 'split', 'sig': x}
+        fi = lambda x: {'do': 'first', 'sig': x}
+        tk = lambda x, k: {'do': 'take', 'sig': x, 'k': k}
+        wrapped = ['(' + S + ')', 'a(' + S + ')', 'a{s(' + S + ')}', S + S[:1], 'a' + S]
+        if shape == 'long-first':           # the array branch of the splitter takes ONE next() from the rest S
+            steps = [sp(long_), sp(S), fi(S)] + [sp(w) for w in wrapped] + [sp(long_), sp(S)]
+        elif shape == 'long-first-lazy':
+            steps = [fi(long_), tk(long_, len(X) + 1), sp(S), sp(long_), sp(S[1:]) if _valid(S[1:]) else sp(S), sp(S)]
+        elif shape == 'first-before-split':
+            steps = [fi(S), sp(S), fi(long_), sp(long_), fi(S), sp(S)] + [fi(w) for w in wrapped[:3]] + [sp(w) for w in wrapped[:3]]
+        elif shape == 'partial-then-full':
+            k = rng.randint(1, len(ts) - 1)
+            steps = [tk(S, k), sp(S), tk(S, 1), sp(S), tk(long_, 1), sp(long_), sp(S), tk(S, len(ts)), sp(S)]
+        elif shape == 'short-first':
+            steps = [sp(S), sp(long_), sp(S), fi(long_), sp(long_)] + [sp(w) for w in wrapped[:2]] + [sp(S)]
+        elif shape == 'dict-and-struct':
+            d = 'a{' + rng.choice(BASIC) + ts[0] + '}'
+            steps = [sp(d + S), sp(S), sp('(' + d + S + ')'), sp(d + S), sp(ts[0] + S), sp(S), sp(d)]
+        else:
+            steps = [{'do': 'nargs', 'sigs': [long_, S, S]}, {'do': 'nargs', 'sigs': [S, long_, 'a(' + S + ')']},
+                     sp(S), {'do': 'nargs', 'sigs': [S, S, long_]}, sp(long_)]
+        out.append({'shape': shape, 'steps': steps})
+    return out
+
+
+# ---- values that are equal (and hash alike) but differ in class
+def ladder_families(m):
+    Y, B, I16, U16, I32, U32, I64, U64 = (m.Byte, m.Boolean, m.Int16, m.UInt16, m.Int32, m.UInt32, m.Int64, m.UInt64)
+    OP, SG = m.ObjectPath, m.Signature
+    return [
+        ('1', [1, True, 1.0, Y(1), U32(1), I64(1), B(1), I16(1), U16(1), U64(1), I32(1)]),
+        ('0', [0, False, 0.0, -0.0, Y(0), B(0), I64(0), U16(0)]),
+        ('200', [200, 200.0, Y(200), U16(200), I16(200), U32(200)]),
+        ('300', [300, Y(300), 300.0, U16(300), I16(300)]),                  # Byte(300) does not fit: it only poisons
+        ('-3', [-3, -3.0, I16(-3), I64(-3), I32(-3), U32(-3)]),
+        ('70000', [70000, 70000.0, U32(70000), I32(70000), I64(70000), U16(70000)]),
+        ('2^31', [2 ** 31, float(2 ** 31), U32(2 ** 31), I64(2 ** 31), I32(2 ** 31)]),
+        ('2^40', [2 ** 40, float(2 ** 40), I64(2 ** 40), U64(2 ** 40), I32(2 ** 40)]),
+        ('/a', ['/a', OP('/a'), SG('/a')]),
+        ('/', ['/', OP('/'), SG('/')]),
+        ('i', ['i', SG('i'), OP('i')]),
+        ('ai', ['ai', SG('ai'), OP('ai')]),
+        ('empty', ['', SG(''), OP('')]),
+    ]
+
+
+CONTEXTS = [
+    ('bare', lambda x, t: x),
+    ('tuple1', lambda x, t: (x,)),
+    ('pair', lambda x, t: (x, t)),
+    ('pair-rev', lambda x, t: (t, x)),
+    ('nested-tuple', lambda x, t: ((x,), t)),
+    ('list-of-tuples', lambda x, t: [(x, t)]),
+    ('dict-value', lambda x, t: {t: x}),
+    ('dict-of-tuple', lambda x, t: {t: (x,)}),
+    ('dict-key', lambda x, t: {x: t}),
+    ('list1', lambda x, t: [x]),
+    ('list2', lambda x, t: [x, x]),
+    ('tuple-of-list', lambda x, t: ([x], t)),
+    ('list-mixed', lambda x, t: [x, t]),
+]
+
+
+def ladder_histories(m, rng, per_family=None):
+    out = []
+    for fam, xs in ladder_families(m):
+        ctxs = CONTEXTS if per_family is None else rng.sample(CONTEXTS, per_family)
+        for cname, mk in ctxs:
+            for r in range(len(xs)):
+                order = xs[r:] + xs[:r]
+                t = fresh_tok()
+                hb = HB('ladder:' + cname)
+                for x in order:
+                    hb.temp(mk(x, t), ('rt',) if r % 2 else ('infer', 'rt'))
+                for x in order[:3]:
+                    hb.temp(mk(x, t), ('infer', 'rt'))
+                out.append(hb.done())
+    return out
+
+
+# ---- live values mutated in place; a failing value, then a repaired one
+def mutation_histories(m):
+    Y, U64, OP = m.Byte, m.UInt64, m.ObjectPath
+    out = []
+
+    def script(name, f):
+        hb = HB('script:' + name)
+        f(hb, fresh_tok())
+        out.append(hb.done())
+
+    def grow_foreign(h, t):          # [1, 2] -> [1, 2, 's'] -> [1, 2] -> [True, 2] -> [7, 2]
+        h.new('a', [1, 2]); h.check('a')
+        h.mut('a', 'append', arg=t); h.check('a')
+        h.mut('a', 'pop'); h.check('a')
+        h.mut('a', 'setitem', key=0, arg=True); h.check('a')
+        h.mut('a', 'setitem', key=0, arg=7); h.check('a')
+    script('list-grows-a-foreign-element', grow_foreign)
+
+    def first_changes(h, t):         # the first element decides: replace it by another class, then by a wrapper
+        h.new('a', [1, 2, 3]); h.check('a')
+        h.mut('a', 'setitem', key=0, arg=t); h.check('a')
+        h.mut('a', 'setitem', key=1, arg=t + 'x'); h.mut('a', 'setitem', key=2, arg=''); h.check('a')
+        h.mut('a', 'clear'); h.check('a')
+        h.mut('a', 'append', arg=Y(5)); h.check('a')
+        h.mut('a', 'append', arg=Y(6)); h.check('a')
+        h.mut('a', 'setitem', key=0, arg=5); h.check('a')
+    script('first-element-changes-class', first_changes)
+
+    def dict_grows(h, t):
+        h.new('d', {t: 1}); h.check('d')
+        h.mut('d', 'setitem', key=t + 'b', arg='x'); h.check('d')
+        h.mut('d', 'delitem', key=t + 'b'); h.check('d')
+        h.mut('d', 'setitem', key=t, arg=True); h.check('d')
+        h.mut('d', 'setitem', key=t + 'c', arg=False); h.check('d')
+        h.mut('d', 'clear'); h.check('d')
+        h.mut('d', 'setitem', key=5, arg=U64(9)); h.check('d')
+    script('dict-grows-and-shrinks', dict_grows)
+
+    def inner_list(h, t):            # a tuple cannot change, the list inside it can
+        h.new('s', ([1], t)); h.check('s')
+        h.mut('s', 'append', at=[0], arg=t); h.check('s')
+        h.mut('s', 'pop', at=[0]); h.check('s')
+        h.mut('s', 'setitem', at=[0], key=0, arg=1.5); h.check('s')
+        h.new('s', ([1], t)); h.check('s')
+    script('list-inside-a-tuple', inner_list)
+
+    def no_type_then_repaired(h, t):  # fail (no DBus type) / succeed on the SAME object
+        h.new('a', [(), 1]); h.check('a')
+        h.mut('a', 'setitem', key=0, arg=(1,)); h.check('a')
+        h.mut('a', 'setitem', key=1, arg=(2,)); h.check('a')
+        h.new('b', [[()], [t]]); h.check('b')
+        h.mut('b', 'setitem', at=[0], key=0, arg=t); h.check('b')
+        h.new('d', {(1, 2): t}); h.check('d')
+        h.mut('d', 'delitem', key=(1, 2)); h.mut('d', 'setitem', key=t, arg=t); h.check('d')
+        h.new('e', {t: {'k': ()}}); h.check('e')
+        h.mut('e', 'setitem', at=[t], key='k', arg=(t,)); h.check('e')
+    script('no-type-then-repaired', no_type_then_repaired)
+
+    def out_of_range_then_repaired(h, t):
+        h.new('a', [Y(5), Y(6)]); h.check('a')
+        h.mut('a', 'setitem', key=1, arg=Y(300)); h.check('a')
+        h.mut('a', 'setitem', key=1, arg=Y(7)); h.check('a')
+        h.new('s', (Y(300), t)); h.check('s')
+        h.new('s', (Y(44), t)); h.check('s')
+        h.new('s', (300, t)); h.check('s')
+        h.new('p', [OP('bad'), OP('/' + t)]); h.check('p')
+        h.mut('p', 'setitem', key=0, arg=OP('/good')); h.check('p')
+        h.new('q', {t: 2 ** 70}); h.check('q')
+        h.mut('q', 'setitem', key=t, arg=2 ** 60); h.check('q')
+    script('out-of-range-then-repaired', out_of_range_then_repaired)
+
+    def rebind(h, t):                # a dropped object and a new one of another type of the same size
+        h.new('a', [1, 2]); h.check('a')
+        h.new('a', [t, t]); h.check('a')
+        h.new('a', [1.5, 2.5]); h.check('a')
+        h.new('d', {t: 1}); h.check('d')
+        h.new('d', {t: t}); h.check('d')
+        h.new('s', (1, t)); h.check('s')
+        h.new('s', (True, t)); h.check('s')
+        h.new('s', (Y(1), t)); h.check('s')
+        for k in range(4):
+            h.temp([k, k + 1]); h.temp([t, t]); h.temp({t: k}); h.temp({t: [k]})
+    script('rebound-and-temporary-values', rebind)
+
+    def bytearray_grows(h, t):
+        h.new('b', bytearray(b'ab')); h.check('b')
+        h.mut('b', 'append', arg=255); h.check('b')
+        h.mut('b', 'clear'); h.check('b')
+        h.new('l', [bytearray(b'x'), bytearray()]); h.check('l')
+        h.mut('l', 'append', at=[1], arg=7); h.check('l')
+        h.mut('l', 'setitem', key=0, arg=[120]); h.check('l')
+    script('bytearray', bytearray_grows)
+
+    def nested_dict(h, t):
+        h.new('d', {t: {'x': [1, 2]}, t + 'b': {'y': [3]}}); h.check('d')
+        h.mut('d', 'append', at=[t, 'x'], arg=t); h.check('d')
+        h.mut('d', 'setitem', at=[t + 'b'], key='y', arg=t); h.check('d')
+        h.mut('d', 'delitem', key=t + 'b'); h.check('d')
+        h.mut('d', 'pop', at=[t, 'x']); h.check('d')
+    script('nested-dict', nested_dict)
+    return out
+
+
+def _containers(v, path=()):
+    """paths (tuples of keys) to every list / dict / bytearray reachable inside v"""
+    out = []
+    if isinstance(v, (list, dict, bytearray)):
+        out.append(path)
+    if isinstance(v, (list, tuple)):
+        for i, e in enumerate(v):
+            out += _containers(e, path + (i,))
+    elif isinstance(v, dict):
+        for k, e in v.items():
+            out += _containers(e, path + (k,))
+    return out
+
+
+def _at(v, path):
+    for k in path:
+        v = v[k]
+    return v
+
+
+def random_walk(rng, m):
+    """a generated container, then 4..12 random in-place edits (also of inner containers), checked after each"""
+    while True:
+        v = g_any(rng, m, rng.choice([1, 2, 2, 3]), exotic=False)
+        if isinstance(v, (list, dict)) or (isinstance(v, tuple) and _containers(v)):
+            try:
+                vc.to_line(v)
+                break
+            except ValueError:
+                pass
+    hb = HB('random-walk')
+    hb.new('a', v)
+    hb.check('a')
+    for _ in range(rng.randint(4, 12)):
+        root = hb.slots['a']
+        paths = _containers(root)
+        if not paths or rng.random() < 0.12:
+            hb.new('a', g_like(rng, m, root, 2, False) if rng.random() < 0.7 else [g_scalar(rng, m)])
+            hb.check('a')
+            continue
+        path = rng.choice(paths)
+        c = _at(root, path)
+        try:
+            if isinstance(c, bytearray):
+                if c and rng.random() < 0.4:
+                    hb.mut('a', 'pop', at=path)
+                else:
+                    hb.mut('a', 'append', at=path, arg=rng.randrange(256))
+            elif isinstance(c, list):
+                r = rng.random()
+                like = (lambda: g_like(rng, m, c[0], 1, False)) if c and rng.random() < 0.7 else (lambda: g_any(rng, m, 1, False))
+                if r < 0.4 or not c:
+                    hb.mut('a', 'append', at=path, arg=like())
+                elif r < 0.75:
+                    hb.mut('a', 'setitem', at=path, key=rng.randrange(len(c)), arg=like())
+                elif r < 0.95:
+                    hb.mut('a', 'pop', at=path)
+                else:
+                    hb.mut('a', 'clear', at=path)
+            else:
+                r = rng.random()
+                keys = list(c)
+                if r < 0.45 or not keys:
+                    k0 = g_like_key(rng, m, keys[0]) if keys and rng.random() < 0.8 else g_key(rng, m)
+                    x0 = g_like(rng, m, c[keys[0]], 1, False) if keys and rng.random() < 0.7 else g_any(rng, m, 1, False)
+                    hb.mut('a', 'setitem', at=path, key=k0, arg=x0)
+                elif r < 0.75:
+                    hb.mut('a', 'setitem', at=path, key=rng.choice(keys), arg=g_any(rng, m, 1, False))
+                elif r < 0.95:
+                    hb.mut('a', 'delitem', at=path, key=rng.choice(keys))
+                else:
+                    hb.mut('a', 'clear', at=path)
+        except ValueError:
+            continue            # something outside the line syntax was generated: skip this edit
+        hb.check('a')
+    return hb.done()
+
+
+# ---- running a history
+def history_lines(h):
+    lines = []
+    for st in h['steps']:
+        do = st['do']
+        if do in ('split', 'take'):
+            lines.append('split ' + vc.str_hex(st['sig']))
+        elif do == 'first':
+            lines.append('first ' + vc.str_hex(st['sig']))
+        elif do == 'nargs':
+            lines += ['nargs ' + vc.str_hex(x) for x in st['sigs']]
+        elif do == 'infer':
+            lines.append('infer ' + (st.get('line') or st['value']))
+        elif do == 'rt':
+            lines.append('vrt %d %d %s' % (1 if st['le'] else 0, st['off'], st.get('line') or st['value']))
+    return lines
+
+
+def obs_take(marshal, sig, k):
+    g = marshal.genCompleteTypes(sig)
+    ps = []
+    try:
+        for _ in range(k):
+            ps.append(next(g))
+    except StopIteration:
+        pass
+    except Exception as e:
+        return 'err %s %s' % (type(e).__name__, hexes(ps)), None
+    return 'ok ' + hexes(ps), ps
+
+
+def run_histories(ctx, marshal, stream, hists):
+    """Every step: S3 against the driver's answer for that operation alone (the models have no memory), S4 by the
+    oracle of the operation.  The replay input of a step is the history up to and including it."""
+    lines = list(dict.fromkeys(ln for h in hists for ln in history_lines(h)))
+    out = ctx.model(lines)
+    mget = dict(zip(lines, out)) if out is not None else {}
+    for h in hists:
+        steps = h['steps']
+        slots = {}
+        ctx.stat('%s:shape=%s' % (stream, h['shape']))
+        for k, st in enumerate(steps):
+            do = st['do']
+            inp = {'op': 'history', 'steps': steps[:k + 1]}
+            if do == 'new':
+                slots[st['slot']] = None              # the old value is dropped before the new one is built
+                slots[st['slot']] = vc.from_line(st['value'])
+                continue
+            if do == 'mut':
+                apply_mut(slots[st['slot']], st)
+                ctx.stat('%s:mutation=%s' % (stream, st['op']))
+                continue
+            ctx.stat('%s:%s' % (stream, do))
+            if do in ('split', 'first', 'take'):
+                s = st['sig']
+                valid = _valid(s)
+                ctx.case(stream, sample=st, nontrivial=len(s) > 1)
+                ctx.impl_trace()
+                msplit = mget.get('split ' + vc.str_hex(s))
+                if do == 'split':
+                    ob, pieces = obs_split(marshal, s)
+                    if msplit is not None and (msplit != ob if valid else (ob.startswith('ok') and msplit != ob)):
+                        ctx.disagree(stream, inp, msplit, ob)
+                    if valid:
+                        check_split_oracle(ctx, s, pieces, ob, inp)
+                elif do == 'first':
+                    of = obs_first(marshal, s)
+                    mf = mget.get('first ' + vc.str_hex(s))
+                    if mf is not None and s and (mf != of if valid else (of.startswith('ok') and mf != of)):
+                        ctx.disagree(stream, inp, mf, of)
+                    if valid:
+                        check_first_oracle(ctx, s, of, inp)
+                else:
+                    ob, pieces = obs_take(marshal, s, st['k'])
+                    if valid:
+                        want = parse_all(s)[:st['k']]
+                        if msplit is not None and msplit.startswith('ok '):
+                            mp = [vc.hex_str(x) for x in msplit.split(' ')[2:]][:st['k']]
+                            if mp != pieces:
+                                ctx.disagree(stream, inp, mp, ob)
+                        if pieces != want:
+                            _viol(ctx, 'split-wrong-decomposition',
+                                  'the first %d pieces of genCompleteTypes(%r) are not its first complete types'
+                                  % (st['k'], s), inp=inp, observed=ob, expected=want)
+                continue
+            if do == 'nargs':
+                t = tuple(st['sigs'])
+                ctx.case(stream, sample=st)
+                ctx.impl_trace()
+                ob = obs_nargs(*t)
+                valid = all(_valid(x) for x in t)
+                mo = [mget.get('nargs ' + vc.str_hex(x)) for x in t]
+                if None not in mo:
+                    mv = [int(x[3:]) for x in mo] if all(x.startswith('ok ') for x in mo) else 'err'
+                    if mv != canon_err(ob) and (valid or canon_err(ob) != 'err'):
+                        ctx.disagree(stream, inp, mv, ob)
+                if valid:
+                    want = [len(parse_all(x)) for x in t]
+                    if ob != want:
+                        _viol(ctx, 'argcount-wrong', 'interface.py counts %r arguments for signatures %r'
+                              % (ob, list(t)), inp=inp, observed=ob, expected=want)
+                continue
+            # infer / rt
+            v = slots[st['slot']] if 'slot' in st else vc.from_line(st['value'])
+            line = st.get('line') or st['value']
+            if 'slot' in st and vc.to_line(v) != line:
+                raise RuntimeError('history out of step at %d: %s != %s' % (k, vc.to_line(v), line))
+            ctx.case(stream, sample={'do': do, 'value': line, 'le': st.get('le'), 'off': st.get('off'),
+                                     'later': 'slot' in st},
+                     nontrivial=isinstance(v, (list, tuple, dict)))
+            if do == 'infer':
+                judge_infer(ctx, marshal, stream, v, line, mget.get('infer ' + line), inp)
+            else:
+                le, off = st['le'], st['off']
+                judge_roundtrip(ctx, marshal, v, inp, le, off, shrink=False)
+                ml = mget.get('vrt %d %d %s' % (1 if le else 0, off, line))
+                if ml is not None:
+                    ob = obs_vrt(marshal, v, le, off)
+                    if ml != ob:
+                        ctx.disagree(stream, inp, ml[:300], ob[:300])
+
+
+def _reproduces(ctx, inp, key):
+    """Does a FRESH process report `key` on this replay input alone?  (Only called for reported violations.)"""
+    verif = os.path.dirname(os.path.dirname(os.path.abspath(__file__)))
+    code = ('import sys, json\n'
+            'sys.path.insert(0, %r)\n'
+            'from vlib import ctx as C\n'
+            'C.use_repo(%r)\n'
+            'import harness.c19 as h\n'
+            'c = C.Ctx("C19", "quick", 0, %r)\n'
+            'c.model_available = False\n'
+            'h.replay(c, {"input": json.loads(sys.stdin.read())})\n'
+            'print("KEYS " + json.dumps([v["key"] for v in c.violations]))\n') % (verif, ctx.repo, ctx.repo)
+    try:
+        p = subprocess.run([sys.executable, '-c', code], input=json.dumps(inp).encode('utf-8'),
+                           stdout=subprocess.PIPE, stderr=subprocess.PIPE, timeout=120)
+        for ln in p.stdout.decode('utf-8', 'replace').splitlines():
+            if ln.startswith('KEYS '):
+                return key in json.loads(ln[5:])
+    except Exception:
+        pass
+    return True             # could not tell: leave the exemplar as it is
+
+
+def settle(ctx):
+    """ctx.violation keeps the SMALLEST input per key, and a single case is smaller than a history.  A defect that
+    needs an earlier operation does not show when the single case is replayed in a fresh process: for every key
+    that was also seen inside a history, try the single-case exemplar in a fresh process and fall back to the
+    smallest history (steps 0..k) when it does not reproduce."""
+    hist = getattr(ctx, '_c19_hist', {})
+    for v in ctx.violations:
+        h = hist.get(v['key'])
+        if h is None or _is_history(v['input']):
+            continue
+        if not _reproduces(ctx, v['input'], v['key']):
+            v.update(input=h['input'], observed=h['observed'], expected=h['expected'],
+                     what=h['what'] + ' - at the last step of the stored history (the case alone, in a fresh '
+                                      'process, does not show it)')
+            ctx.stat('exemplar-replaced-by-history')
+
+
 def run_case(ctx, marshal, case):
     op = case.get('op')
-    if op in ('split', 'first'):
+    if op == 'history':
+        steps = case['steps']
+        stream = 'split-history' if steps and steps[0]['do'] in ('split', 'first', 'take', 'nargs') else 'infer-history'
+        run_histories(ctx, marshal, stream, [{'shape': 'replay', 'steps': steps}])
+    elif op in ('split', 'first'):
         s = case['sig']
-        run_split(ctx, marshal, 'split-enumerated' if _valid(s) else 'split-malformed', [s], _valid(s))
+        run_split(ctx, marshal, 'split-enumerated' if _valid(s) else 'split-malformed', [s], _valid(s),
+                  case.get('pattern'))
     elif op == 'nargs':
         run_argcount(ctx, marshal, [tuple(case['sigs'])])
     elif op == 'infer':
@@ -1145,11 +1831,30 @@ def run(ctx):
     rng = ctx.rng
     thorough = ctx.tier != 'quick'
 
-    for name, case in ctx.corpus():
-        run_case(ctx, marshal, case)
+    corpus = ctx.corpus()
+    for name, case in corpus:
+        if case.get('op') == 'history':
+            run_case(ctx, marshal, case)
+
+    # ---- histories, before anything else has been split or inferred in this process
+    n = ctx.scale(quick=350, thorough=6000)
+    run_histories(ctx, marshal, 'split-history', split_histories(rng, n))
+    n = ctx.scale(quick=120, thorough=3000)
+    run_histories(ctx, marshal, 'infer-history',
+                  ladder_histories(marshal, rng) + mutation_histories(marshal)
+                  + [random_walk(rng, marshal) for _ in range(n)])
+
+    for name, case in corpus:
+        if case.get('op') != 'history':
+            run_case(ctx, marshal, case)
 
     # ---- splitter
     nlen = 8 if thorough else 7
+    # longest first, over leaves of its own: when a signature of this pass is split, none of its suffixes has
+    # been split on its own yet (the pass below goes shortest first)
+    desc = sorted(enum_sigs(nlen - 1, 'ub', 'd'), key=lambda x: -len(x))
+    run_split(ctx, marshal, 'split-enumerated', desc, True)
+    ctx.stat('split-enumerated:longest-first', len(desc))
     sigs = enum_sigs(nlen, 'is', 'v')
     seen = set(sigs)
     sigs += [s for s in enum_sigs(5 if thorough else 3, BASIC, 'v') if s not in seen]
@@ -1228,6 +1933,7 @@ def run(ctx):
     # the same values (those inside the line syntax) through the code model of marshal / unmarshal
     wire = [(v, le, off) for v, inp, le, off in cases if 'value' in inp]
     run_wire(ctx, marshal, wire[:ctx.scale(quick=8000, thorough=120000)])
+    settle(ctx)
 
 
 def max_depth(s):
